@@ -7,3 +7,5 @@ from . import attrs  # noqa: F401
 from . import children  # noqa: F401
 from . import helpers  # noqa: F401
 from . import tagify  # noqa: F401
+from . import hooks  # noqa: F401
+from . import document  # noqa: F401
